@@ -191,6 +191,11 @@ def gen_cases(ctx, rnd):
         ["DTuple", [["DCompound", [["DInt"], ["DStr"]]], ["DAny"]]], ["DTuple", [["DFloat"]]],
         ["DTuple", [["DString", 0, 3, None], ["DInt"]]],
     ]
+    # List(<trait>) members: alone (Python-only validate on both paths) and inside Either / Tuple / Union
+    lv = pv.list_values(rnd, 12 if quick else 120)
+    for d in pv.LISTS + pv.LIST_CONTAINERS:
+        for v in lv + (rnd.sample(atoms, 8) if quick else atoms):
+            cases.append(dict(d=d, v=v))
     tv = pv.tuple_values(rnd, 25 if quick else 250, 2)
     for d in fixed:
         vals = (atoms if not quick else rnd.sample(atoms, 42)) + (tv if d[0] == "DTuple" else tv[:8])
@@ -199,7 +204,7 @@ def gen_cases(ctx, rnd):
     # random nestings (depth <= 3)
     n_cfg, n_val = (50, 24) if quick else (800, 45)
     for _ in range(n_cfg):
-        d = pv.gen_desc(rnd, 3)
+        d = pv.gen_desc(rnd, 3, extra=pv.adapts((2,)) * 4)     # adapt='default' anywhere (F21 when inside a compound)
         if d[0] not in ("DTuple", "DCompound"):
             d = ["DTuple", [d, pv.gen_desc(rnd, 1)]]
         vals = rnd.sample(atoms, n_val // 2) + pv.tuple_values(rnd, n_val // 2, 2)
